@@ -125,6 +125,34 @@ pub(super) fn optimize(
     return None;
   }
   let only_relevant_induction_loop_variables = relevant_derived_induction_variables[0];
+  // The loop continues while `i OP bound`. The rewritten loop compares `m * i + c` with
+  // `m * bound + c`, so the comparison keeps its direction for a positive multiplier `m` and is
+  // mirrored for a negative one; it is not always `<`.
+  let basic = &optimizable_while_loop.basic_induction_variable_with_loop_guard;
+  // A loop that steps away from its bound (`i >= bound` with a positive constant step, or
+  // `i < bound` with a negative one) either ends at once or never ends on its own; such loops
+  // keep the historical treatment.
+  let steps_away_from_bound = match (&basic.guard_operator, &basic.increment_amount) {
+    (GuardOperator::GE | GuardOperator::GT, PotentialLoopInvariantExpression::Int(k)) => *k > 0,
+    (GuardOperator::LT | GuardOperator::LE, PotentialLoopInvariantExpression::Int(k)) => *k < 0,
+    _ => false,
+  };
+  let new_guard_operator = if steps_away_from_bound {
+    GuardOperator::LT
+  } else {
+    match (&only_relevant_induction_loop_variables.multiplier, basic.guard_operator) {
+      (PotentialLoopInvariantExpression::Int(m), op) if *m > 0 => op,
+      (PotentialLoopInvariantExpression::Int(m), op) if *m < 0 => match op {
+        GuardOperator::LT => GuardOperator::GT,
+        GuardOperator::LE => GuardOperator::GE,
+        GuardOperator::GT => GuardOperator::LT,
+        GuardOperator::GE => GuardOperator::LE,
+      },
+      // A multiplier whose sign is not known at compile time.
+      (PotentialLoopInvariantExpression::Var(_), GuardOperator::LT) => GuardOperator::LT,
+      _ => return None,
+    }
+  };
   let added_invariant_expression_in_loop = merge_invariant_multiplication_for_loop_optimization(
     &optimizable_while_loop.basic_induction_variable_with_loop_guard.increment_amount,
     &only_relevant_induction_loop_variables.multiplier,
@@ -168,7 +196,7 @@ pub(super) fn optimize(
     name: only_relevant_induction_loop_variables.name,
     initial_value: Expression::var_name(new_initial_value_name, INT_32_TYPE),
     increment_amount: added_invariant_expression_in_loop,
-    guard_operator: GuardOperator::LT,
+    guard_operator: new_guard_operator,
     guard_expression: PotentialLoopInvariantExpression::Var(VariableName {
       name: new_guard_value_name,
       type_: INT_32_TYPE,
